@@ -32,6 +32,10 @@ Proof.
     destruct (scan_ascii_str _ s) as [[v s1]| | |]; cbn [bind good fst snd] in *; auto.
   - apply convert_entry_hex_good; exact HP.
   - apply convert_entry_b64_good; exact HP.
+  - pose proof (scan_uint_good 255 s HP) as G.
+    destruct (scan_uint 255 true s) as [[v s1]| | |]; cbn [bind good fst snd] in *; auto.
+  - pose proof (convert_token_salt_good s HP) as G.
+    destruct (convert_token_salt s) as [[v s1]| | |]; cbn [bind good fst snd] in *; auto.
 Qed.
 
 Lemma scan_fields_good origin : forall fs s acc, PInv s ->
